@@ -2,7 +2,9 @@ package rules
 
 import (
 	"fmt"
+	"go/constant"
 	"go/token"
+	"go/types"
 	"strings"
 
 	"golang.org/x/tools/go/ssa"
@@ -829,6 +831,17 @@ func (c *borrowCtx) isAlias(v ssa.Value, depth int) bool {
 					}
 				}
 			}
+			// z.buf read back inside the constructor (z.buf = b[:n+1]; z.buf[n] = 0): an alias when an alias is
+			// stored into that field anywhere in the constructor's code
+			if fa, ok := x.X.(*ssa.FieldAddr); ok {
+				for _, f := range c.fns {
+					for _, st := range allStores(f) {
+						if fb, isFA := st.Addr.(*ssa.FieldAddr); isFA && fb.Field == fa.Field && types.Identical(fb.X.Type(), fa.X.Type()) && c.isAlias(st.Val, depth+1) {
+							return true
+						}
+					}
+				}
+			}
 		}
 	case *ssa.FreeVar, *ssa.Parameter:
 		if b, ok := c.bind[v]; ok {
@@ -873,6 +886,160 @@ func (c *borrowCtx) guarded(at ssa.Instruction, neg bool) bool {
 		at = c.site[at.Parent()]
 	}
 	return false
+}
+
+// borrowFieldForm: the borrowed byte is saved in a field of the cursor and put back by Restore under a flag:
+//
+//	ctor:    z.buf = b[:n+1]; z.saved = z.buf[n]; z.has = true; z.buf[n] = 0      (under cap(b) > n)
+//	Restore: if z.has { z.buf[len(z.buf)-1] = z.saved; z.has = false }
+//
+// Decided: the save reads b[len(b)] before the terminator store and goes to a byte field; a bool field is set in the
+// same guarded region; Restore's only element store goes to buf[len(buf)-1] with the saved field's value, under the
+// flag, and clears the flag; no other function of the package stores into buf's elements or assigns the saved/flag
+// fields, and buf itself is assigned only where the cursor is constructed (so len(buf)-1 is still the borrowed index).
+// Returns false when the shape is not this one (the closure form's checks then report).
+func borrowFieldForm(r *core.Run, c *borrowCtx, rel, typ, name string, ctor *ssa.Function, zeroStore *ssa.Store) bool {
+	cr, _ := discoverCursorRoles(r, cursorType{rel, typ})
+	rf := r.Prog.SSAFunc(rel, typ, "Restore")
+	if cr == nil || rf == nil || cr.role["buf"] == "" {
+		return false
+	}
+	bufF := cr.role["buf"]
+	isField := func(addr ssa.Value, want string) bool {
+		fa, ok := addr.(*ssa.FieldAddr)
+		if !ok {
+			return false
+		}
+		tp, okT := modTypePath(fa.X.Type())
+		wantT := typ
+		if rel != "" {
+			wantT = rel + "." + typ
+		} else {
+			wantT = "parse." + typ
+		}
+		return okT && tp == wantT && fieldName(fa.X.Type(), fa.Field) == want
+	}
+	fieldOf := func(addr ssa.Value) string {
+		if fa, ok := addr.(*ssa.FieldAddr); ok {
+			if tp, okT := modTypePath(fa.X.Type()); okT && (tp == "parse."+typ || tp == rel+"."+typ) {
+				return fieldName(fa.X.Type(), fa.Field)
+			}
+		}
+		return ""
+	}
+	before := func(a, b ssa.Instruction) bool {
+		if a.Parent() != b.Parent() {
+			return false
+		}
+		if a.Block() == b.Block() {
+			return instrIndex(a) < instrIndex(b)
+		}
+		return a.Block().Dominates(b.Block())
+	}
+	// the save and the flag in the constructor's code
+	saved, flag := "", ""
+	for _, f := range c.fns {
+		for _, st := range allStores(f) {
+			fn := fieldOf(st.Addr)
+			if fn == "" {
+				continue
+			}
+			if ld, ok := c.resolve(st.Val, 0).(*ssa.UnOp); ok && ld.Op == token.MUL && isByteType(st.Val.Type()) {
+				if ia, isIA := ld.X.(*ssa.IndexAddr); isIA && c.isAlias(ia.X, 0) && c.isLenOfCaller(ia.Index) && before(ld, zeroStore) {
+					saved = fn
+				}
+			}
+			if k, isK := st.Val.(*ssa.Const); isK && k.Value != nil && k.Value.Kind() == constant.Bool && constant.BoolVal(k.Value) && (st.Block() == zeroStore.Block() || c.guarded(st, false)) {
+				flag = fn
+			}
+		}
+	}
+	if saved == "" || flag == "" {
+		return false
+	}
+	r.OK(name+" writes only b[len(b)]", ctor.Pos(), "one terminator store; the byte it replaces is saved in field "+saved+" under flag "+flag)
+	// Restore: buf[len(buf)-1] = saved under the flag, flag cleared
+	z := rf.Params[0].Name()
+	var put *ssa.Store
+	cleared := false
+	nElem := 0
+	for _, st := range allStores(rf) {
+		if ia, ok := st.Addr.(*ssa.IndexAddr); ok {
+			nElem++
+			if u, isU := ia.X.(*ssa.UnOp); isU && u.Op == token.MUL && isField(u.X, bufF) {
+				idx := cr.normLin(linOf(ia.Index), z)
+				if call, _, isCall := callOfValue(ia.Index); isCall {
+					// z.end(): a one-expression helper
+					if g := call.Call.StaticCallee(); g != nil && len(g.Blocks) == 1 {
+						if ret, isRet := lastInstr(g.Blocks[0]).(*ssa.Return); isRet && len(ret.Results) == 1 {
+							idx = cr.normLin(linOf(ret.Results[0]), g.Params[0].Name())
+						}
+					}
+				}
+				want := linAtom("len(z.buf)").add(linConst(1), -1)
+				if ld, isLd := st.Val.(*ssa.UnOp); isLd && ld.Op == token.MUL && isField(ld.X, saved) && idx.equal(want) {
+					put = st
+				}
+			}
+		}
+		if isField(st.Addr, flag) {
+			if k, isK := st.Val.(*ssa.Const); isK && k.Value != nil && k.Value.Kind() == constant.Bool && !constant.BoolVal(k.Value) {
+				cleared = true
+			}
+		}
+	}
+	underFlag := false
+	if put != nil {
+		for _, a := range guardsAt(put.Block()) {
+			for _, pr := range [][2]ssa.Value{{a.x, a.y}, {a.y, a.x}} {
+				ld, isLd := pr[0].(*ssa.UnOp)
+				k, isK := pr[1].(*ssa.Const)
+				if isLd && isK && ld.Op == token.MUL && isField(ld.X, flag) && k.Value != nil && k.Value.Kind() == constant.Bool {
+					if (a.op == token.EQL) == constant.BoolVal(k.Value) {
+						underFlag = true
+					}
+				}
+			}
+		}
+	}
+	r.Check(put != nil && nElem == 1 && underFlag, name+" restore puts the saved byte back", rf.Pos(), "", "Restore does not store the saved byte back at buf[len(buf)-1] under the flag that the constructor set (or stores something else into the buffer)")
+	r.Check(cleared, typ+".Restore clears the closure", rf.Pos(), "", "Restore does not reset the flag: a second Restore would rewrite the caller's byte")
+	// nobody else touches the saved byte, the flag, the buffer's elements, or re-slices the buffer
+	inCtorUnit := map[*ssa.Function]bool{}
+	for _, f := range c.fns {
+		inCtorUnit[f] = true
+	}
+	bad := ""
+	for _, f := range allModuleFuncs(r) {
+		if fnPkg(f) == nil || fnPkg(f) != fnPkg(ctor) || f == rf || inCtorUnit[f] {
+			continue
+		}
+		constructs := false
+		for _, b := range f.Blocks {
+			for _, in := range b.Instrs {
+				if al, isAl := in.(*ssa.Alloc); isAl {
+					if tp, okT := modTypePath(al.Type()); okT && (tp == "parse."+typ || tp == rel+"."+typ) {
+						constructs = true
+					}
+				}
+			}
+		}
+		for _, st := range allStores(f) {
+			switch fn := fieldOf(st.Addr); {
+			case fn == saved || fn == flag:
+				bad = fmt.Sprintf("%s assigns %s", fnLabel(f), fn)
+			case fn == bufF && !constructs:
+				bad = fmt.Sprintf("%s assigns the buffer", fnLabel(f))
+			}
+			if ia, ok := st.Addr.(*ssa.IndexAddr); ok {
+				if u, isU := ia.X.(*ssa.UnOp); isU && u.Op == token.MUL && isField(u.X, bufF) {
+					bad = fmt.Sprintf("%s stores into the buffer", fnLabel(f))
+				}
+			}
+		}
+	}
+	r.Check(bad == "", name+" saved byte, flag and buffer are written only by the constructor and Restore", ctor.Pos(), "", bad+": the byte Restore puts back (or the index it puts it at) may no longer be the borrowed one")
+	return true
 }
 
 func runBorrow(r *core.Run) {
@@ -984,6 +1151,12 @@ func runBorrow(r *core.Run) {
 						}
 					}
 				}
+			}
+		}
+		if restoreStore == nil && zeroStore != nil && writes == 1 && bad == 0 {
+			// no restore store in the constructor's code: the saved byte may live in a field (saved byte + flag)
+			if borrowFieldForm(r, c, tc.rel, tc.typ, name, ctor, zeroStore) {
+				continue
 			}
 		}
 		r.Check(writes == 2 && bad == 0, name+" writes only b[len(b)]", ctor.Pos(), fmt.Sprintf("%d writes", writes),
